@@ -160,9 +160,7 @@ func Run(cfg Config, body func()) *Exec {
 	s.cur = t
 	s.startThread(t, body)
 	t.wake <- struct{}{}
-	select {
-	case <-s.end:
-	case <-time.After(120 * time.Second):
+	if !waitWall(s.end, 20*time.Second, 6) {
 		// a thread blocked outside the scheduler's control
 		buf := make([]byte, 1<<16)
 		n := runtime.Stack(buf, true)
@@ -186,11 +184,11 @@ func Run(cfg Config, body func()) *Exec {
 		case th.wake <- struct{}{}:
 		default:
 		}
-		select {
-		case <-th.exited:
-		case <-time.After(30 * time.Second):
+		if !waitWall(th.exited, 10*time.Second, 6) {
 			S = nil
-			return &Exec{Diverged: fmt.Sprintf("teardown: thread %d (%s) did not exit (blocked at %s)", th.ID, th.Name, th.desc)}
+			buf := make([]byte, 1<<16)
+			n := runtime.Stack(buf, true)
+			return &Exec{Diverged: fmt.Sprintf("teardown: thread %d (%s) did not exit (blocked at %s)\n%s", th.ID, th.Name, th.desc, buf[:n])}
 		}
 	}
 	for _, f := range s.cleanup {
@@ -198,6 +196,29 @@ func Run(cfg Config, body func()) *Exec {
 	}
 	S = nil
 	return &Exec{Points: s.points, Failure: s.failure, Steps: s.step, Trace: s.trace, Now: s.now, Diverged: s.diverged, Races: s.races}
+}
+
+// waitWall waits for ch in n slices of wall-clock time. A single expired timer
+// proves nothing (the whole machine may have been paused - a snapshot, a
+// stopped VM - and every pending timer fires at once on resume); only n
+// consecutive expirations, each started after the previous one was observed,
+// are taken as "stuck".
+func waitWall(ch <-chan struct{}, slice time.Duration, n int) bool {
+	for i := 0; i < n; i++ {
+		tm := time.NewTimer(slice)
+		select {
+		case <-ch:
+			tm.Stop()
+			return true
+		case <-tm.C:
+		}
+		select {
+		case <-ch:
+			return true
+		default:
+		}
+	}
+	return false
 }
 
 func (s *sched) newThread(name string) *Thread {
